@@ -13,7 +13,7 @@ export const SPELLINGS = [
 ];
 export const SUFFIXES = [[], ['m1'], ['m1', 'm2'], ['zeta', 'alpha'], ['snap-to-grid'], ['2x', 'm1']];
 export const NSARGS = [null, 'arg1', 'argCamel'];
-export const VALUE_FORMS = ['expr', 'call', 'arr1', 'arrArgStr', 'arrArgExpr', 'arrMods', 'arrArgStrMods', 'arrArgExprMods', 'str', 'none', 'arrEmptyMods', 'jsxEl', 'jsxElBraced', 'jsxFrag'];
+export const VALUE_FORMS = ['expr', 'call', 'arr1', 'arrArgStr', 'arrArgExpr', 'arrMods', 'arrArgStrMods', 'arrArgExprMods', 'str', 'none', 'arrEmptyMods', 'jsxEl', 'jsxElBraced', 'jsxFrag', 'strEntity', 'arr1ArrayValue'];
 export const HOSTKINDS = ['element', 'component'];
 export const NEIGHBOURS = ['none', 'attrBefore', 'attrAfter', 'secondDir', 'sameDirTwice', 'withShow', 'spreadBefore', 'classAndChild'];
 
@@ -38,6 +38,8 @@ export function makeDirective(b, spelling, suffixes, nsArg, form, tagN) {
     case 'arrArgStrMods': valSrc = `{[${leafVal(g())}, "sarg${tagN}", ["mz", "ma"]]}`; if (!nsArg) den.arg = { k: 'str', v: `sarg${tagN}` }; mods = ['mz', 'ma']; break;
     case 'arrArgExprMods': { const a = g(); valSrc = `{[${leafVal(g())}, ${a}, ["only"]]}`; if (!nsArg) den.arg = { k: 'leaf', i: b.leaf(a) }; mods = ['only']; break; }
     case 'str': valSrc = `"sv${tagN}"`; den.value = { k: 'str', v: `sv${tagN}` }; break;
+    case 'strEntity': valSrc = `"a &amp; b &lt; ${tagN}"`; den.value = { k: 'str', v: `a & b < ${tagN}` }; break;
+    case 'arr1ArrayValue': { const x = g(), y = g(); valSrc = `{[${leafVal(`[${x}, ${y}]`)}]}`; break; }
     case 'none': valSrc = null; break;
     // a JSX element / fragment as the value, written without and with braces
     case 'jsxEl': valSrc = leafVal(`<b id="tip${tagN}">tip</b>`); break;
@@ -127,6 +129,9 @@ function buildHtmlText(rng, which, form, hk, neighbour, spellingIdx) {
     case 'attrAfter': attrs = [d, plain('pb')]; break;
     case 'spreadBefore': { const s = b.global({ k: 'obj', v: { id: { k: 'str', v: 'sp' } } }); attrs = [A.spread(b.leaf(s), s), d]; break; }
     case 'secondDir': attrs = [d, makeDirective(b, ['v-second', 'second'], [], null, 'expr', 1)]; break;
+    // a later spread that carries the same DOM property overrides it, an earlier one is overridden (ordinary prop order)
+    case 'spreadAfterSameKey': { const s = b.global({ k: 'obj', v: { [which === 'html' ? 'innerHTML' : 'textContent']: { k: 'str', v: 'from-spread' }, id: { k: 'str', v: 'sp' } } }); attrs = [d, A.spread(b.leaf(s), s)]; break; }
+    case 'spreadBeforeSameKey': { const s = b.global({ k: 'obj', v: { [which === 'html' ? 'innerHTML' : 'textContent']: { k: 'str', v: 'from-spread' } } }); attrs = [A.spread(b.leaf(s), s), d, plain('pz')]; break; }
     default: attrs = [A.attr('class', { k: 'str', raw: 'k' }), d];
   }
   const children = [];
@@ -165,7 +170,7 @@ export function* generate({ tier, seed }) {
     for (const c of rng.shuffle(all).slice(0, 12000)) { const g = emit(c, [rng.pick(OPTS)]); if (g) yield g; }
   }
   // v-html / v-text
-  for (const which of ['html', 'text']) for (const form of HT_FORMS) for (const hk of HOSTKINDS) for (const nb of ['none', 'attrBefore', 'attrAfter', 'spreadBefore', 'secondDir', 'class', 'withChildren']) for (const si of [0, 1]) {
+  for (const which of ['html', 'text']) for (const form of HT_FORMS) for (const hk of HOSTKINDS) for (const nb of ['none', 'attrBefore', 'attrAfter', 'spreadBefore', 'secondDir', 'class', 'withChildren', 'spreadAfterSameKey', 'spreadBeforeSameKey']) for (const si of [0, 1]) {
     const built = buildHtmlText(rng, which, form, hk, nb, si);
     yield {
       gid: `C04-ht-${n++}`, src: built.src, syntax: 'jsx', spec: built.spec,
